@@ -159,7 +159,7 @@ def move(rng, d):
     if not free:
         return None
     c = rng.choice(free)
-    c.where = 'comp' if c.where == 'pkg' else 'pkg'
+    c.where = rng.choice([w for w in ('pkg', 'comp', 'comp2') if w != c.where])
     return ('move', c.kl, c.where)
 
 
